@@ -1,7 +1,7 @@
 --------------------------- MODULE Trace_ParseFront ---------------------------
 (* Seeded sequences of loads at production size.  $TRACE holds events        *)
 (*   init  {pre}                                                             *)
-(*   doc   {fmt, acc, items, fe, lacc, fail [, text]} [obs]                  *)
+(*   doc   {fmt, acc, items, fe, lacc, fail, log [, text]} [obs]             *)
 (*   clear {}                                         [obs]                  *)
 (* pass 1 (no obs): the items are fed through the actions of ConfText and    *)
 (*   the text of every document is printed for the driver;                   *)
@@ -55,8 +55,9 @@ TLoad ==
   /\ UNCHANGED vars
   /\ IF HasObs
      THEN LET a == Ev.arg  rec == Ev.obs
-              lo == LoadObs(a.fe, a.lacc, a.fail)
+              lo == LoadObs(a.fe, a.lacc, a.fail, a.log)
           IN /\ a.text = DocText
+             /\ a.log \in LogsOf(a.fe)
              /\ \E out \in DOMAIN lo.exp.alts : AltMatches(lo.exp.alts[out], rec)
              /\ Judge(rec)
              /\ target' = rec.tree
